@@ -13,6 +13,8 @@
     G                    the reply Pub/Sub is closed (logged before): the subscription may end although the context is alive
     F                    OnListenForReplyFinished runs (logged inside the callback)
     Z                    the caller found the reply channel closed and empty
+    O                    the hook ran for the whole liveness bound without the draining caller seeing the channel closed
+                         (the code closes the channel before it calls the hook, so the model never accepts this after F)
   `<res>` is kept as the hex text, `<err>` is `-` (no error) or `=<hex>`.
 -/
 import WmModel.ReqReply
@@ -40,7 +42,7 @@ inductive WA
 
 inductive Lbl
   | P (res : String) (err : Option String) (bad : Bool)
-  | S | R (r : Reply) | X | Y | G | F | Z
+  | S | R (r : Reply) | X | Y | G | F | Z | O
   deriving Repr
 
 def insertSorted (k : Nat) : List Nat → List Nat
@@ -90,6 +92,10 @@ def byLabel (w : W) : Lbl → List (List WA)
     match lis w with
     | some l => if l.chanClosed && l.buf.isEmpty then [[]] else []
     | none => []
+  | .O =>
+    match lis w with
+    | some l => if l.chanClosed then [] else [[]]
+    | none => []
 
 def csys : Conf.CSys W WA Lbl := { act := wact, taus := taus, byLabel := byLabel }
 
@@ -118,6 +124,7 @@ def parseTok (t : String) : Option Lbl :=
   | ["G"] => some .G
   | ["F"] => some .F
   | ["Z"] => some .Z
+  | ["O"] => some .O
   | _ => none
 
 def initW (hasTimeout : Bool) : W :=
